@@ -45,7 +45,7 @@ PROPS = {
         assumptions=["each library-level write is atomic and ordered (stdio on one stream)"],
     ),
     "C03": dict(
-        lean_props=["H4.Props.C03", "H4.Props.C03Fn"],
+        lean_props=["H4.Props.C03", "H4.Props.C03Fn", "H4.Props.C03Fn2"],
         engines=[
             E("sd", "e_sd.c", model="sd", quick=dict(cases=1500), thorough=dict(cases=30000, seeds=8, chunk=300)),
         ],
